@@ -85,6 +85,14 @@ def exclstep(prof, quick, thorough):
 
 
 CONFIG = {
+    "C20": {
+        "rule": ("rapid stepper over LinearAttempt in a synctest bubble (virtual time): count 1-6, rate in {1ns,1ms,1s}, context cancellable/deadline/Err-only/pre-cancelled/background, "
+                 "receiver policy prompt/every-k/stop-after-j/parked/absent/free, cancellation at a drawn instant incl. exactly on a tick (timer tie), just before/after, mid-interval, before the "
+                 "call, after close; invalid inputs must panic. Oracle: first value immediately (len==1 on return, closed+empty if pre-cancelled), <= count values, exact non-decreasing tick "
+                 "timestamps, <=1 buffered at every quiescent point, closed after the count-th value or at the first quiescent point after cancellation, <=1 tick forwarded after cancel, "
+                 "producer goroutine gone (leak oracle). non-trivial = count>=3, cancellation while the producer is alive and a value still buffered at that instant; distinct = hash of the case."),
+        "jobs": [{"name": "attempt", "test": "TestC20Attempt", "steps": 12, "checks": {"quick": 16000, "thorough": 400000}, "shards": {"quick": 8, "thorough": 16}, "env": {"VKIT_PROFILE": "C20"}}],
+    },
     "C14": {
         "rule": ("rapid stepper over bigbuff.Workers in a synctest bubble: rules call(count 1-4, gated task returning a unique value/error; also via Wrap), release(task), wait (launched), "
                  "burst (2-6 actions without settling, drawn Gosched) and storm (4-12 concurrent callers with self-yielding tasks); oracle at every quiescent point: each task starts once, "
